@@ -148,6 +148,7 @@ func (c *Controller) Put(r record.Record) (err error) {
 		return errors.New("storage returned nil record after successful put operation")
 	}
 
+	verifEvent("put:stored", c, r)
 	c.notifySubscribers(r)
 
 	return nil
@@ -200,6 +201,7 @@ func (c *Controller) PushUpdate(r record.Record) {
 			return
 		}
 
+		verifEvent("push:enter", c, r)
 		c.notifySubscribers(r)
 	}
 }
@@ -211,6 +213,7 @@ func (c *Controller) addSubscription(sub *Subscription) {
 
 	c.subscriptionLock.Lock()
 	defer c.subscriptionLock.Unlock()
+	verifEvent("sub:locked", sub)
 
 	c.subscriptions = append(c.subscriptions, sub)
 }
@@ -276,12 +279,17 @@ func (c *Controller) Shutdown() error {
 func (c *Controller) notifySubscribers(r record.Record) {
 	c.subscriptionLock.RLock()
 	defer c.subscriptionLock.RUnlock()
+	verifEvent("notify:rlocked", c, r)
+	defer verifEvent("notify:runlock", c, r)
 
 	for _, sub := range c.subscriptions {
 		if r.Meta().CheckPermission(sub.local, sub.internal) && sub.q.Matches(r) {
+			verifEvent("notify:presend", sub, r)
 			select {
 			case sub.Feed <- r:
+				verifEvent("notify:sent", sub, r)
 			default:
+				verifEvent("notify:full", sub, r)
 			}
 		}
 	}
@@ -290,6 +298,7 @@ func (c *Controller) notifySubscribers(r record.Record) {
 func (c *Controller) runPreGetHooks(key string) error {
 	c.hooksLock.RLock()
 	defer c.hooksLock.RUnlock()
+	verifEvent("runPreGetHooks:rlocked", c)
 
 	for _, hook := range c.hooks {
 		if !hook.h.UsesPreGet() {
@@ -311,6 +320,7 @@ func (c *Controller) runPreGetHooks(key string) error {
 func (c *Controller) runPostGetHooks(r record.Record) (record.Record, error) {
 	c.hooksLock.RLock()
 	defer c.hooksLock.RUnlock()
+	verifEvent("runPostGetHooks:rlocked", c)
 
 	var err error
 	for _, hook := range c.hooks {
@@ -334,6 +344,7 @@ func (c *Controller) runPostGetHooks(r record.Record) (record.Record, error) {
 func (c *Controller) runPrePutHooks(r record.Record) (record.Record, error) {
 	c.hooksLock.RLock()
 	defer c.hooksLock.RUnlock()
+	verifEvent("runPrePutHooks:rlocked", c)
 
 	var err error
 	for _, hook := range c.hooks {
